@@ -43,9 +43,11 @@ func c07(w *World) {
 	var cl *Client
 	var teardown func()
 	var auth *Client
+	var sess func() *session.Session
+	closeTimeout := []time.Duration{time.Second, time.Hour}[w.W.Draw(2)]
 
 	if role == "acceptor" {
-		acc := w.StartAcceptor(AccCfg{HandlerBuf: buf, WriteTimeout: time.Minute, HBMin: limits[0], HBMax: limits[1], Approve: approve, Store: store})
+		acc := w.StartAcceptor(AccCfg{HandlerBuf: buf, WriteTimeout: time.Minute, HBMin: limits[0], HBMax: limits[1], Approve: approve, Store: store, CloseTimeout: closeTimeout})
 		if storeMode != 0 {
 			auth = w.NewClient(acc, "auth", "GOOD", "LIB")
 			r := auth.Step(auth.Msg("A", LogonFields(limits[0], "0", "carol", "secret")...))
@@ -69,6 +71,12 @@ func c07(w *World) {
 		cl = w.NewClient(acc, "unauth", "EVIL", "LIB")
 		if w.W.Chance(1, 3) && auth != nil {
 			cl.PeerID = "GOOD" // impersonate the identifiers of the authenticated peer
+		}
+		sess = func() *session.Session {
+			if ss := acc.Sessions(); len(ss) > 0 {
+				return ss[len(ss)-1].S
+			}
+			return nil
 		}
 		teardown = func() {
 			cl.P.C.CloseNow()
@@ -99,8 +107,9 @@ func c07(w *World) {
 		}
 		a, b := w.Net.Pipe("unauth", -1, -1)
 		cl = &Client{w: w, P: NewPeer(w, b, "unauth"), PeerID: "Server", LibID: "Client"}
-		ini := w.StartInitiator(InitCfg{HandlerBuf: buf, ConnBuf: buf, WriteDeadline: time.Minute, HeartBtInt: 1 + w.W.Draw(5), Store: store}, a)
+		ini := w.StartInitiator(InitCfg{HandlerBuf: buf, ConnBuf: buf, WriteDeadline: time.Minute, HeartBtInt: 1 + w.W.Draw(5), Store: store, CloseTimeout: closeTimeout}, a)
 		cl.Settle()
+		sess = func() *session.Session { return ini.S }
 		teardown = func() { ini.I.Close(); cl.P.C.CloseNow() }
 	}
 	if auth != nil {
@@ -136,7 +145,24 @@ func c07(w *World) {
 	check()
 	for i := 0; i < steps && len(w.Viol) == 0 && w.Inconclusive == "" && !cl.P.EOF; i++ {
 		var raw []byte
-		switch w.W.Pick(6, 3, 2, 2, 4, 2, 2, 2, 4) {
+		switch w.W.Pick(6, 3, 2, 2, 4, 2, 2, 2, 4, 2) {
+		case 9:
+			// the application ends or logs out the session that never logged on; whatever the peer sends
+			// afterwards is still sent by a peer that has not logged on
+			if ss := sess(); ss != nil {
+				if w.W.Chance(1, 2) {
+					last = "local-stop"
+					simrt.GoHarness("Stop", func() { _ = ss.Stop() })
+				} else {
+					last = "local-logout"
+					simrt.GoHarness("Logout", func() { _ = ss.Logout() })
+				}
+				simrt.Settle()
+				w.Probe("local_ending_before_logon")
+			}
+			cl.Settle()
+			check()
+			continue
 		case 0:
 			last = "resendrequest"
 			b, e := w.W.Draw(6), w.W.Draw(8)
